@@ -49,8 +49,22 @@ Proof. intros. apply Equal_correct; unfold eqw_max, mid_max; auto; lia. Qed.
 (* ---- refutations for the formulas of the unrepaired tree: configurations the constructors accept but for which the
    documented function is NOT computed *)
 (* Xor2 with internal wires of a's width and a result wider than a: the bits at and above a's width come out as 1 *)
-Lemma Xor2_wide_refuted : exists wa wb wr a b, fits wa a /\ fits wb b /\ Xor2_m mid_a wa wb wr a b <> xor2_spec wr a b.
+Lemma Xor2_before_repair_witness : exists wa wb wr a b, fits wa a /\ fits wb b /\ Xor2_m mid_a wa wb wr a b <> xor2_spec wr a b.
 Proof. exists 1, 1, 2, 0, 0. unfold fits. repeat split; try (cbn; lia); vm_compute; discriminate. Qed.
 (* Equal with an xor wire of a's width and b wider than a reports equality of a with the truncated b *)
-Lemma Equal_wide_refuted : exists wa wb a b, fits wa a /\ fits wb b /\ Equal_m mid_a eqw_a wa wb a b <> equal_spec a b.
+Lemma Equal_before_repair_witness : exists wa wb a b, fits wa a /\ fits wb b /\ Equal_m mid_a eqw_a wa wb a b <> equal_spec a b.
 Proof. exists 1, 2, 1, 3. unfold fits. repeat split; try (cbn; lia); vm_compute; discriminate. Qed.
+
+(* ---- instances for the width formulas of the current /repo (mid_max, eqw_max): what Properties/C08.v states as headlines *)
+Lemma AnyEqual_correct_max w wr ins : 1 <= w -> 1 <= wr -> (2 <= length ins)%nat -> Forall (fits w) ins ->
+  AnyEqual_m mid_max eqw_max w wr ins = any_equal_spec ins.
+Proof. intros. apply AnyEqual_correct; auto; unfold eqw_max, mid_max; lia. Qed.
+Lemma ComparatorSU_correct_max w a b : 1 <= w -> fits w a -> fits w b -> ComparatorSU_m mid_max w a b = cmp_su_spec w a b.
+Proof. intros. apply ComparatorSU_correct; auto. apply mid_ok_max. Qed.
+Lemma SignedMax2_correct_max w wr a b : 1 <= w -> 0 <= wr -> fits w a -> fits w b -> SignedMax2_m mid_max w wr a b = smax2_spec w wr a b.
+Proof. intros. apply SignedMax2_correct; auto. apply mid_ok_max. Qed.
+Lemma SignedMin2_correct_max w wr a b : 1 <= w -> 0 <= wr -> fits w a -> fits w b -> SignedMin2_m mid_max w wr a b = smin2_spec w wr a b.
+Proof. intros. apply SignedMin2_correct; auto. apply mid_ok_max. Qed.
+Lemma signed_max_is_max_max w a b : 1 <= w -> fits w a -> fits w b ->
+  sgn w (SignedMax2_m mid_max w w a b) = Z.max (sgn w a) (sgn w b) /\ sgn w (SignedMin2_m mid_max w w a b) = Z.min (sgn w a) (sgn w b).
+Proof. intros. apply signed_max_is_max; auto. apply mid_ok_max. Qed.
